@@ -175,9 +175,11 @@ class Stage:
         return self._public_DT_control
 
     def set_t0(self, t0):
+        self._set_transcribed(False)
         self._t0 = t0
 
     def set_T(self, T):
+        self._set_transcribed(False)
         self._T = T
 
     def _param_value(self, p):
